@@ -590,6 +590,19 @@ func (b *Builder) FromBytes(bs []*Term, signed bool) *Term {
 	if hiN == 1 {
 		return bs[0]
 	}
+	// low bytes of a non-negative t that fits in them (the high zero bytes were folded away)
+	if hiN < n && bs[0].Op == OByte && bs[0].Aux == 0 {
+		t := bs[0].Args[0]
+		ok := t.NonNeg() && t.Hi != nil && t.Hi.Cmp(pow256(hiN)) < 0
+		for i := 1; ok && i < hiN; i++ {
+			if !(bs[i].Op == OByte && bs[i].Aux == i && bs[i].Args[0] == t) {
+				ok = false
+			}
+		}
+		if ok {
+			return t
+		}
+	}
 	var lo, hi *big.Int
 	if signed && hiN == n {
 		lo = new(big.Int).Neg(new(big.Int).Lsh(big1, uint(8*n-1)))
